@@ -7,6 +7,7 @@ import (
 	"fmt"
 	"math/rand"
 	"net"
+	"sync/atomic"
 	"time"
 
 	"github.com/innovationb1ue/RedisGO/config"
@@ -14,6 +15,9 @@ import (
 	"verif/harness/impl"
 	"verif/harness/respcodec"
 )
+
+// HungBatches counts batches whose replies were still missing after the extended wait.
+var HungBatches int32
 
 type Conn struct {
 	C         net.Conn
@@ -99,6 +103,7 @@ func (c *Conn) Batch(cmds [][][]byte, timeout time.Duration) Result {
 		done <- nil
 	}()
 	var res Result
+	extended := false
 	deadline := time.Now().Add(timeout)
 	tmp := make([]byte, 65536)
 	pos := 0
@@ -123,7 +128,17 @@ func (c *Conn) Batch(cmds [][][]byte, timeout time.Duration) Result {
 		c.C.SetReadDeadline(deadline)
 		n, err := c.C.Read(tmp)
 		c.buf = append(c.buf, tmp[:n]...)
+		if ne, ok := err.(net.Error); ok && ne.Timeout() && n == 0 && !extended && atomic.LoadInt32(&HungBatches) < 3 {
+			// A reply that is never written stays missing however long one waits; a starved process delivers it late.
+			// Believe the timeout only after waiting ten times longer (for the first few, which is enough for a verdict).
+			extended = true
+			deadline = time.Now().Add(10 * timeout)
+			continue
+		}
 		if err != nil && n == 0 {
+			if ne, ok := err.(net.Error); ok && ne.Timeout() {
+				atomic.AddInt32(&HungBatches, 1)
+			}
 			res.Problem, res.Detail = "short", fmt.Sprintf("%d replies for %d commands (%v); pending bytes %q", len(res.Replies), len(cmds), err, trunc(c.buf[pos:]))
 			c.buf = nil
 			return res
